@@ -105,6 +105,7 @@ def c03(ck, replay=None):
     total_runs = sum(pt[3] for pt in parts)
     bg = ThreadPoolExecutor(max_workers=1)
     canary_done = False
+    variant_done = False
     try:
         # code -> spec: random programs / sources beyond the enumerated bounds (plain threads, and under detsched)
         nper = 1000 if thorough else 150
@@ -150,6 +151,14 @@ def c03(ck, replay=None):
                     canary_done = True
                 futures.append((name, bg.submit(ck.run_binder, 'streamops', items, timeout=2400,
                                                 extra={'kind': 'cases', 'detsched': False})))
+                if not variant_done:
+                    # the same cases once more with a StopIteration object behind the token 'U' (see the binder: VARIANT)
+                    variant_done = True
+                    v_items = [{'id': 5000 + k, 'lines': ch, 'alphabet': alphabet}
+                               for k, ch in enumerate(chunks(lines if len(lines) <= 500000 else rnd.sample(lines, 500000), 1500))]
+                    futures.append((name + ' [StopIteration variant]',
+                                    bg.submit(ck.run_binder, 'streamops', v_items, timeout=2400,
+                                              extra={'kind': 'cases', 'detsched': False, 'variant': 'stopiter'})))
                 del lines
         if sched_pool:
             s_items = [{'id': k, 'lines': ch, 'alphabet': alphabet, 'seed': rnd.randrange(1 << 30)}
